@@ -1284,11 +1284,11 @@ def slide(
                 if h.position == head.position
             ]
             if len(waiting_heads) >= element.number:
-                # TODO: Refactoring the merging/waiting for heads so that the clean up is clean
-                # Remove all waiting head except for the current
-                # for waiting_head in waiting_heads:
-                #     if waiting_head.uid != head.uid:
-                #         del flow_state.heads[waiting_head.uid]
+                # The other waiting heads are done: they must not be counted again when
+                # the same statement is executed another time (e.g. in a loop)
+                for waiting_head in waiting_heads:
+                    if waiting_head.uid != head.uid:
+                        waiting_head.status = FlowHeadStatus.INACTIVE
 
                 head.position += 1
             else:
